@@ -30,6 +30,15 @@ Section Solve.
     dv_project : list (list A) -> list (list A);       (* device.project *)
     dv_cons : list (con A) }.                          (* device.constraints *)
 
+  (* solver_options: the keys the caller may override; solve() starts from its own defaults on EVERY call *)
+  Record sopts := { so_ftol : option A; so_maxiter : option Z; so_disp : option bool }.
+  Definition default_opts : sopts := {| so_ftol := Some (n1 / nofZ 1000000); so_maxiter := Some 1000%Z; so_disp := Some false |}.
+  Definition over {T} (u d : option T) : option T := match u with Some v => Some v | None => d end.
+  (* {'ftol': 1e-6, 'maxiter': 1000, 'disp': False}.update(solver_options) *)
+  Definition solve_options (user : sopts) : sopts :=
+    {| so_ftol := over (so_ftol user) (so_ftol default_opts); so_maxiter := over (so_maxiter user) (so_maxiter default_opts);
+       so_disp := over (so_disp user) (so_disp default_opts) |}.
+
   Inductive sres :=
   | SAccept (x : list (list A)) (o : option optresult)   (* (flow, OptimizeResult or None) *)
   | SRaiseOptimization                                   (* OptimizationException *)
@@ -128,5 +137,6 @@ Arguments problem : clear implicits.
 Arguments optresult : clear implicits.
 Arguments devview : clear implicits.
 Arguments sres : clear implicits.
+Arguments sopts : clear implicits.
 Arguments stres : clear implicits.
 Arguments projcall : clear implicits.
